@@ -132,7 +132,19 @@ func (s *RegionSyncer) StartSyncWithLeader(addr string) {
 	go func() {
 		defer s.wg.Done()
 		// used to load region from kv storage to cache storage.
-		err := s.server.GetStorage().LoadRegionsOnce(s.server.GetBasicCluster().CheckAndPutRegion)
+		bc := s.server.GetBasicCluster()
+		err := s.server.GetStorage().LoadRegionsOnce(func(region *core.RegionInfo) []*core.RegionInfo {
+			// Regions are loaded without leader and flow. When the region storage is not used they
+			// are loaded on every start, so do not let them replace a cached region that has been
+			// synchronized already, unless the stored meta is newer.
+			if origin := bc.GetRegion(region.GetID()); origin != nil {
+				r, o := region.GetRegionEpoch(), origin.GetRegionEpoch()
+				if r.GetVersion() <= o.GetVersion() && r.GetConfVer() <= o.GetConfVer() {
+					return nil
+				}
+			}
+			return bc.CheckAndPutRegion(region)
+		})
 		if err != nil {
 			log.Warn("failed to load regions.", errs.ZapError(err))
 		}
